@@ -221,7 +221,8 @@ func RunParent(p *Prop, o RunOptions) int {
 	for _, s := range sigs {
 		f := found[s]
 		if k, ok := knownSig[s]; ok {
-			fmt.Printf("KNOWN-FINDING: property=%s signature=%s %s (seen in %d cases)\n", p.ID, s, k.Text, f.Count)
+			kp := writeReplayNamed(o.Verif, p.ID, o.Tier, f, "known-")
+			fmt.Printf("KNOWN-FINDING: property=%s signature=%s %s (seen in %d cases; example %s)\n", p.ID, s, k.Text, f.Count, kp)
 			knownHit = append(knownHit, s)
 			continue
 		}
@@ -346,10 +347,14 @@ type ReplayFile struct {
 }
 
 func writeReplay(verif, id, tier string, f *FoundCase) string {
+	return writeReplayNamed(verif, id, tier, f, "")
+}
+
+func writeReplayNamed(verif, id, tier string, f *FoundCase, prefix string) string {
 	dir := filepath.Join(outDir(verif), "replays", id)
 	os.MkdirAll(dir, 0o755)
 	sum := sha256.Sum256(append([]byte(f.Sig+"\x00"), f.Case...))
-	path := filepath.Join(dir, hex.EncodeToString(sum[:6])+".json")
+	path := filepath.Join(dir, prefix+hex.EncodeToString(sum[:6])+".json")
 	WriteJSON(path, ReplayFile{Property: id, Tier: tier, Sig: f.Sig, Detail: f.Detail, Case: f.Case})
 	return path
 }
